@@ -64,7 +64,7 @@ def load_prop(pid):
     return _PROP[pid]
 
 
-def run_one(pid, case, seed, timeout=120):
+def run_one(pid, case, seed, timeout=1800):
     """Execute one case in this process. Harness errors propagate as verdict 'HARNESS'."""
     prop = load_prop(pid)
     signal.signal(signal.SIGALRM, _alarm)
@@ -153,7 +153,7 @@ def main_check(pid, tier, jobs, seed, replay=None, max_report=20, filt=None):
     if filt:
         cases = [c for c in cases if re.search(filt, json.dumps(c, sort_keys=True, default=str))]
     n = len(cases)
-    timeout = getattr(prop, "CASE_TIMEOUT", 120)
+    timeout = getattr(prop, "CASE_TIMEOUT", 1800)
     chunk_size = max(1, min(getattr(prop, "CHUNK", 200), (n + jobs * 4 - 1) // (jobs * 4)))
     indexed = list(enumerate(cases))
     # round-robin style chunks keep expensive neighbours apart
@@ -308,7 +308,7 @@ def main_replay(pid, path, seed):
     rec = json.load(open(path))
     case = rec["case"]
     seed = rec.get("seed", seed)
-    res = run_one(pid, case, seed)
+    res = run_one(pid, case, seed, getattr(load_prop(pid), "CASE_TIMEOUT", 1800))
     known = load_known(pid)
     rc = 0
     for c, r in flatten(case, res):
